@@ -52,7 +52,7 @@ CONF = {
                 big=[("ctxsync", 300, 3000), ("nonasync", 200, 2000)]),
     "C07": dict(prefixes=("C07.",), builds=("pure",),
                 model=[("override", 400, 5000), ("overridesync", 300, 3500), ("overridefaults", 300, 3500), ("ctx", 100, 1500),
-                       ("overridedag", 500, 5000), ("overrideset", 400, 4000)],
+                       ("overridedag", 500, 5000), ("overrideset", 400, 4000), ("overrideapi", 300, 3000)],
                 big=[("overridesync", 300, 3000), ("overridefaults", 300, 3000)]),
     "C08": dict(prefixes=("C08.",), builds=("pure",),
                 model=[("session", 400, 4000), ("syncfaults", 200, 2500), ("overflow", 300, 3000), ("overflowbatch", 400, 4000), ("sync", 150, 1500), ("throw", 250, 2500), ("spawnsync", 300, 3000), ("lazyfail", 150, 1500),
@@ -260,6 +260,10 @@ def main():
                     plang.enum_dedup(2, (1, 2), 2, fn=11, bind="inst1", spell0=1) + plang.enum_dedup(2, (1,), 2, fn=11, bind="static")
             fam += [("enum_dedup", p) for p in en]
             cov["enumerated_family"] = "root yields [D, actor..]; every actor sequence over {wait, call, dirty+call}: %d programs, all schedules" % len(en)
+        if pid == "C07":
+            en = plang.enum_shared_override()
+            fam += [("enum_shared_override", p) for p in en]
+            cov["enumerated_family"] = "a task with its own override awaited by two overriding parents, one flush round apart or not: %d programs, all schedules" % len(en)
         progs = [p for _, p in fam]
         mc = pipeline.model_check(progs, sc, cfg="SchedExport.cfg", chunk=4000, timeout=3000, coverage=False, clauses=conf["prefixes"][0])
         cov["states"] = mc["states"]
